@@ -748,6 +748,11 @@ func (b *outlierDetectionBalancer) successRateAlgorithm() {
 	mean, stddev := b.meanAndStdDev(endpointsToConsider)
 	ejectionCfg := b.cfg.SuccessRateEjection
 	for _, epInfo := range endpointsToConsider {
+		if !epInfo.latestEjectionTimestamp.IsZero() {
+			// Already ejected: ejecting it again would count it twice in
+			// numEndpointsEjected and bump its multiplier twice.
+			continue
+		}
 		bucket := epInfo.callCounter.inactiveBucket
 		successRate := float64(bucket.numSuccesses) / float64(bucket.numSuccesses+bucket.numFailures)
 		requiredSuccessRate := mean - stddev*(float64(ejectionCfg.StdevFactor)/1000)
@@ -782,6 +787,12 @@ func (b *outlierDetectionBalancer) failurePercentageAlgorithm() {
 
 	ejectionCfg := b.cfg.FailurePercentageEjection
 	for _, epInfo := range endpointsToConsider {
+		if !epInfo.latestEjectionTimestamp.IsZero() {
+			// Already ejected (possibly by the success rate algorithm in this
+			// same interval): ejecting it again would count it twice in
+			// numEndpointsEjected and bump its multiplier twice.
+			continue
+		}
 		bucket := epInfo.callCounter.inactiveBucket
 		failurePercentage := (float64(bucket.numFailures) / float64(bucket.numSuccesses+bucket.numFailures)) * 100
 		if failurePercentage > float64(b.cfg.FailurePercentageEjection.Threshold) {
